@@ -253,6 +253,25 @@ pub proof fn lemma_latest_is_last(s: Seq<Rec>, id: Seq<u8>, k: int)
         }
     }
 }
+/// `k` is the last row of `m` touching `id`
+pub open spec fn is_last_touch(m: Seq<Rec>, id: Seq<u8>, k: int) -> bool {
+    &&& 0 <= k < m.len()
+    &&& touches(ev_of(m[k]), id)
+    &&& forall|j: int| k < j < m.len() ==> !touches(ev_of(#[trigger] m[j]), id)
+}
+/// appending `m` to any log: the last row of `m` touching `id` decides
+pub proof fn lemma_append_decided(base: Seq<Rec>, m: Seq<Rec>, id: Seq<u8>, k: int)
+    requires is_last_touch(m, id, k),
+    ensures lookup(replay(base + m), id) == leaves_behind(ev_of(m[k]), id),
+{
+    let s = base + m;
+    let kk = base.len() + k;
+    assert(s[kk] == m[k]);
+    assert forall|j: int| kk < j < s.len() implies !touches(ev_of(#[trigger] s[j]), id) by {
+        assert(s[j] == m[j - base.len()]);
+    }
+    lemma_last_touch_decides(s, id, kk);
+}
 /// "the latest edit by timestamp wins" / "a secret created on one device appears on
 /// all": whatever log the merged rows `m` are appended to, if `m` is time sorted and
 /// the row `m[k]` creating/updating `id` is strictly later than every other row of
@@ -264,13 +283,19 @@ pub proof fn lemma_latest_edit_wins(base: Seq<Rec>, m: Seq<Rec>, id: Seq<u8>, k:
     ensures lookup(replay(base + m), id) == leaves_behind(ev_of(m[k]), id),
 {
     lemma_latest_is_last(m, id, k);
-    let s = base + m;
-    let kk = base.len() + k;
-    assert(s[kk] == m[k]);
-    assert forall|j: int| kk < j < s.len() implies !touches(ev_of(#[trigger] s[j]), id) by {
-        assert(s[j] == m[j - base.len()]);
+    lemma_append_decided(base, m, id, k);
+}
+pub proof fn lemma_last_touch_exists(m: Seq<Rec>, id: Seq<u8>, d: int)
+    requires 0 <= d < m.len(), touches(ev_of(m[d]), id),
+    ensures exists|k: int| d <= k && #[trigger] is_last_touch(m, id, k),
+    decreases m.len() - d,
+{
+    if exists|j: int| d < j < m.len() && touches(ev_of(#[trigger] m[j]), id) {
+        let j = choose|j: int| d < j < m.len() && touches(ev_of(#[trigger] m[j]), id);
+        lemma_last_touch_exists(m, id, j);
+    } else {
+        assert(is_last_touch(m, id, d));
     }
-    lemma_last_touch_decides(s, id, kk);
 }
 /// "a deleted secret does not come back unless it was edited after the deletion":
 /// if `m` is time sorted, holds a delete of `id`, and every create/update of `id` in
@@ -281,33 +306,12 @@ pub proof fn lemma_deleted_stays_deleted(base: Seq<Rec>, m: Seq<Rec>, id: Seq<u8
         forall|j: int| 0 <= j < m.len() && touches(ev_of(#[trigger] m[j]), id) && !(ev_of(m[j]) is Delete) ==> time_lt(m[j].time, m[d].time),
     ensures !replay(base + m).contains_key(id),
 {
-    // the last row of m touching id exists (d touches it) and is a delete
-    let k = choose|k: int| d <= k < m.len() && touches(ev_of(m[k]), id)
-        && (forall|j: int| k < j < m.len() ==> !touches(ev_of(#[trigger] m[j]), id));
-    assert(exists|k: int| d <= k < m.len() && touches(ev_of(m[k]), id)
-        && (forall|j: int| k < j < m.len() ==> !touches(ev_of(#[trigger] m[j]), id))) by {
-        lemma_last_touch_exists(m, id, d);
-    }
+    lemma_last_touch_exists(m, id, d);
+    let k = choose|k: int| d <= k && #[trigger] is_last_touch(m, id, k);
     if !(ev_of(m[k]) is Delete) {
         assert(time_lt(m[k].time, m[d].time));
-        if d < k { assert(time_le(m[d].time, m[k].time)); }
+        assert(d < k);
+        assert(time_le(m[d].time, m[k].time));
     }
-    let s = base + m;
-    let kk = base.len() + k;
-    assert(s[kk] == m[k]);
-    assert forall|j: int| kk < j < s.len() implies !touches(ev_of(#[trigger] s[j]), id) by {
-        assert(s[j] == m[j - base.len()]);
-    }
-    lemma_last_touch_decides(s, id, kk);
-}
-pub proof fn lemma_last_touch_exists(m: Seq<Rec>, id: Seq<u8>, d: int)
-    requires 0 <= d < m.len(), touches(ev_of(m[d]), id),
-    ensures exists|k: int| d <= k < m.len() && touches(ev_of(m[k]), id)
-        && (forall|j: int| k < j < m.len() ==> !touches(ev_of(#[trigger] m[j]), id)),
-    decreases m.len() - d,
-{
-    if exists|j: int| d < j < m.len() && touches(ev_of(#[trigger] m[j]), id) {
-        let j = choose|j: int| d < j < m.len() && touches(ev_of(#[trigger] m[j]), id);
-        lemma_last_touch_exists(m, id, j);
-    }
+    lemma_append_decided(base, m, id, k);
 }
